@@ -39,7 +39,7 @@ def table(cname: str, pname: str, ann: str) -> Optional[list]:
     if pname == 'value' and cname == 'Option':
         return list(STRS)
     if pname == 'value' and cname == 'NumberExpr':
-        return [Dc('1.50'), Dc('-2'), Dc('0')]
+        return [Dc('1.50'), Dc('-2'), Dc('0'), Dc('-0.00')]
     if pname == 'value':
         return ['str "q"', Dc('1.5'), Dc('-3'), D(2000, 1, 2), True, models.Account.from_value('Assets:A'),
                 models.Amount.from_value(Dc(2), 'USD'), models.Currency.from_value('USD'), models.Tag.from_value('t')] + \
@@ -51,13 +51,13 @@ def table(cname: str, pname: str, ann: str) -> Optional[list]:
     if pname == 'flag':
         return ['*', '!', 'P'] if cname == 'Transaction' else ['!', '*']   # ('txn' is a spelling of '*', not a value)
     if pname in ('number', 'tolerance', 'number_per', 'number_total'):
-        return [Dc('1.50'), Dc('-2'), Dc('0'), Dc('0.0000001')] if pname != 'tolerance' else [Dc('0.1'), Dc('0')]
+        return [Dc('1.50'), Dc('-2'), Dc('0'), Dc('0.0000001'), Dc('-0.00')] if pname != 'tolerance' else [Dc('0.1'), Dc('0')]
     if pname in ('payee', 'narration'):
         return ['p', 'with "q"', '']
     if pname in ('leading_comment', 'trailing_comment'):
         return ['c', 'two\nlines', '', 'blank\n \nline']
     if pname == 'inline_comment':
-        return ['ic', '']
+        return ['ic', '', ';; legacy']
     if pname in ('indent', 'indent_by'):
         return ['    ', '\t', '  ']
     if pname == 'merge':
@@ -78,7 +78,7 @@ def table(cname: str, pname: str, ann: str) -> Optional[list]:
         return [lambda: [models.Open.from_value(D(2000, 1, 1), 'Assets:A'), models.Close.from_value(D(2000, 1, 2), 'Assets:A')],
                 lambda: [], lambda: [models.Option.from_value('k', 'v')]]
     if pname == 'values':
-        return [['s', Dc(1)], [], [Dc(10), Dc(-2), Dc(-3)], [True, D(2000, 1, 2), 'x'], [Dc(1), Dc(2), Dc(-3), Dc(-4)],
+        return [['s', Dc(1)], [], [Dc(10), Dc(-2), Dc(-3)], [True, D(2000, 1, 2), 'x'], [Dc(1), Dc(2), Dc(-3), Dc(-4)], [Dc(10), Dc('-0.00')],
                 [models.Account.from_value('Assets:A'), models.Amount.from_value(Dc(-1), 'USD'), Dc(-1)]]
     if pname == 'meta':
         return [{'kk': 'v'}, {}, {'kk': 'v "q"', 'zz': Dc('-1'), 'dd': D(2000, 1, 2), 'bb': True, 'nn': None}]
